@@ -323,11 +323,90 @@ pub fn c03_heavy<F: Fam>(ctx: &Ctx, b: &[u8]) {
     }
 }
 
+/// the public per-body and per-property-set decoders called directly
+pub fn c03_sub<F: Fam>(ctx: &Ctx, b: &[u8], hd: u8) {
+    for rem in [0u32, 1, 2, b.len() as u32, b.len() as u32 + 1, 0x0FFF_FFFF] {
+        ctx.eval(1);
+        match guard(|| F::sub_decoders(b, hd, rem)) {
+            Err(m) => {
+                ctx.violation(
+                    format!("C03:{}:sub-decoder-panic", F::NAME),
+                    format!("a per-body / per-property decoder called directly on {} (control {:#04x}, remaining length {rem}) panics: {m} @ {}", hex_short(b), hd, last_panic_loc()),
+                    json!({"kind":"sub-decoder","family":F::NAME,"bytes":hex(b),"hd":hd,"rem":rem}),
+                );
+                return;
+            }
+            Ok(results) => {
+                ctx.trans(results.len() as u64);
+                ctx.trace(results.len() as u64);
+                for (name, p) in results {
+                    if let Some(p) = p {
+                        if let Err(w) = F::walk(&p) {
+                            ctx.violation(
+                                format!("C03:{}:sub-decoder-invariant:{name}", F::NAME),
+                                format!("{name} on {} returned a value violating a type invariant: {w}", hex_short(b)),
+                                json!({"kind":"sub-decoder","family":F::NAME,"bytes":hex(b),"hd":hd,"rem":rem}),
+                            );
+                        }
+                    }
+                }
+            }
+        }
+    }
+}
+
+fn c03_sub_universe<F: Fam>(ctx: &Ctx) {
+    // all strings <= 2 bytes, all 3-byte strings over B16
+    let mut n = 0u64;
+    c03_sub::<F>(ctx, &[], 0x32);
+    (0..=255u8).into_par_iter().for_each(|a| {
+        c03_sub::<F>(ctx, &[a], 0x32);
+        for b in 0..=255u8 {
+            c03_sub::<F>(ctx, &[a, b], 0x32);
+        }
+    });
+    n += 1 + 256 + 65536;
+    B16.par_iter().for_each(|a| {
+        for b in B16 {
+            for c in B16 {
+                c03_sub::<F>(ctx, &[*a, b, c], 0x30);
+            }
+        }
+    });
+    n += 4096;
+    // the bodies of all small frames, whole and with every byte substituted over B16
+    let frames = sweeps::small_frames(F::FAMILY, if ctx.thorough() { 40 } else { 24 });
+    let m = AtomicU64::new(0);
+    frames.par_iter().for_each(|f| {
+        let hl = dec::header(f).map(|h| h.2).unwrap_or(2);
+        let body = &f[hl..];
+        c03_sub::<F>(ctx, body, f[0]);
+        let mut k = 1;
+        let mut buf = body.to_vec();
+        for i in 0..body.len() {
+            for v in B16 {
+                if v != body[i] {
+                    buf[i] = v;
+                    c03_sub::<F>(ctx, &buf, f[0]);
+                    k += 1;
+                }
+            }
+            buf[i] = body[i];
+            // and truncated there
+            c03_sub::<F>(ctx, &body[..i], f[0]);
+            k += 1;
+        }
+        m.fetch_add(k, Relaxed);
+    });
+    ctx.count(&format!("{}_sub_decoder_inputs", F::NAME), n + m.load(Relaxed));
+}
+
 pub fn c03(ctx: &Ctx) {
-    ctx.set_rule("all byte strings <= 3 (thorough 4) bytes; all complete frames with remaining length <= 2 (3) and all bodies over the 16-byte alphabet B16 up to 5 (6) bytes for the legal control bytes; maximal headers; the complete single-edit neighbourhood N1 (substitution, deletion, insertion, every 16-bit window rewritten as a length, remaining length rewritten to 0..rem+2 and the width boundaries; raw and re-framed) of every U_small frame; splices; legal non-canonical spellings; the malformation catalogue. Entry points: Packet::decode, Header::decode, decode_async, Header::decode_async, PollPacket (always-ready; 1- and 2-byte reads with the future kept / re-created; end of stream mid-way). Monitors: panic (incl. overflow checks and debug_assert in the checked profile), pending-without-cause, call budget, init coverage of the returned body buffer by address ranges, type-invariant walker. Non-trivial = inputs that get past header validation");
+    ctx.set_rule("all byte strings <= 3 (thorough 4) bytes; all complete frames with remaining length <= 2 (3) and all bodies over the 16-byte alphabet B16 up to 5 (6) bytes for the legal control bytes; maximal headers; the complete single-edit neighbourhood N1 (substitution, deletion, insertion, every 16-bit window rewritten as a length, remaining length rewritten to 0..rem+2 and the width boundaries; raw and re-framed) of every U_small frame; splices; legal non-canonical spellings; the malformation catalogue. Entry points: Packet::decode, Header::decode, decode_async, Header::decode_async, PollPacket (always-ready; 1- and 2-byte reads with the future kept / re-created; end of stream mid-way); additionally every public per-body and per-property-set decoder (Connect::decode_async … AuthProperties::decode_async, decode_with_protocol with all three protocols, LastWill, Protocol, decode_raw_header) called directly on all strings <= 2 bytes, B16^3 and the bodies of all small frames with every byte substituted over B16 and every truncation, for six remaining-length arguments. Monitors: panic (incl. overflow checks and debug_assert in the checked profile), pending-without-cause, call budget, init coverage of the returned body buffer by address ranges, type-invariant walker. Non-trivial = inputs that get past header validation");
     fn fam<F: Fam>(ctx: &Ctx) {
         let sw = Sweep { ctx, nontrivial: AtomicU64::new(0), accepted: AtomicU64::new(0) };
         all_byte_universes::<F>(ctx, &|b| c03_light::<F>(ctx, &sw, b), &|b| c03_heavy::<F>(ctx, b), true);
+        c03_sub_universe::<F>(ctx);
         ctx.nontriv(sw.nontrivial.load(Relaxed));
         ctx.count(&format!("{}_accepted", F::NAME), sw.accepted.load(Relaxed));
         ctx.state(sw.nontrivial.load(Relaxed));
